@@ -30,7 +30,10 @@ Lemma gcount_le n : gcount_in n = true -> nval n <= 4294967295.
 Proof. intros H. apply Z.leb_le in H. exact H. Qed.
 Lemma gatom_le n : gatom_in n = true -> 1 <= nval n <= 2147483647.
 Proof. intros H. apply andb_prop in H. destruct H as [H1 H2]. apply Z.leb_le in H1, H2. split; [exact H1 | exact H2]. Qed.
+Lemma gratom_le vm n : gratom_in vm n = true -> 1 <= nval n <= vm.
+Proof. intros H. apply andb_prop in H. destruct H as [H1 H2]. apply Z.leb_le in H1, H2. split; [exact H1 | exact H2]. Qed.
 Ltac rng := repeat match goal with
+  | H : gratom_in ?v ?n = true |- _ => apply gratom_le in H
   | H : gweight_in ?n = true |- _ => apply gweight_le in H
   | H : gcount_in ?n = true |- _ => apply gcount_le in H
   | H : gatom_in ?n = true |- _ => apply gatom_le in H end;
@@ -54,10 +57,23 @@ Proof.
     intros ln2. cbv beta iota. apply yields_ret.
 Qed.
 
-Lemma atoms_fwd l fuel k ln : (length l <= fuel)%nat -> gnums_ok l k = true -> forallb gatom_in l = true ->
+(* ================= generic in the reader's atom limit vm (ProgramReader::setMaxVar) ================= *)
+Section MaxVar.
+Variable vm : Z.
+Hypothesis Hvm : vm <= INT64_MAX.
+Local Notation m_atom := (m_atom_v vm).
+Local Notation m_body := (m_body_v vm).
+Local Notation m_sum := (m_sum_v vm).
+Local Notation read_rule := (read_rule_v vm).
+Local Notation read_rules := (read_rules_v vm).
+Local Notation gbody_in := (gbody_in_v vm).
+Local Notation grule_in := (grule_in_v vm).
+Local Notation m_atom_fwd := (fun n k ln => V.C07.ProofsGLex.m_atom_fwd vm n k ln Hvm).
+
+Lemma atoms_fwd l fuel k ln : (length l <= fuel)%nat -> gnums_ok l k = true -> forallb (gratom_in vm) l = true ->
   yields (m_many m_atom fuel (Z.of_nat (length l)) (amk (r_gnums l ++ k) ln)) (gvals l) k.
 Proof.
-  intros. rewrite <- (map_id (gvals l)). apply (many_fwd m_atom gatom_in (fun x => x)); try assumption.
+  intros. rewrite <- (map_id (gvals l)). apply (many_fwd m_atom (gratom_in vm) (fun x => x)); try assumption.
   intros n0 k0 ln0 Hx Hy. apply m_atom_fwd; assumption.
 Qed.
 
@@ -85,10 +101,10 @@ Lemma m_body_fwd b k ln : gbody_shape b = true -> gbody_in b = true ->
   gnums_ok (gb_len b :: gb_neg b :: gb_atoms b) k = true ->
   yields (m_body (amk (r_gnums (gb_len b :: gb_neg b :: gb_atoms b) ++ k) ln)) (d_gbody b) k.
 Proof.
-  unfold gbody_shape, len_is, gbody_in. intros Hs Hin Hok. rewrite !gnums_ok_cons in Hok. bsplit. norm_toks.
+  unfold gbody_shape, len_is, gbody_in_v. intros Hs Hin Hok. rewrite !gnums_ok_cons in Hok. bsplit. norm_toks.
   apply Z.eqb_eq in Hs.
   assert (Hn0 : 0 <= nval (gb_neg b)) by (eapply gnum_ok_nonneg; eassumption).
-  rewrite d_gbody_eq by assumption. unfold m_body.
+  rewrite d_gbody_eq by assumption. unfold m_body_v.
   eapply yields_bind. { apply m_pos_fwd; [apply umax_le | assumption | rng]. }
   intros ln1. cbv beta iota.
   eapply yields_bind. { apply m_pos_fwd; [apply umax_le | assumption | rng]. }
@@ -106,11 +122,11 @@ Lemma m_sum_c_fwd b bnd k ln : gbody_shape b = true -> gbody_in b = true -> gwei
   yields (m_sum false (amk (r_gnums (gb_len b :: gb_neg b :: bnd :: gb_atoms b) ++ k) ln))
          (nval bnd, map (fun l => (l, 1)) (d_gbody b)) k.
 Proof.
-  unfold gbody_shape, len_is, gbody_in. intros Hs Hin Hw Hok. rewrite !gnums_ok_cons in Hok. bsplit. norm_toks.
+  unfold gbody_shape, len_is, gbody_in_v. intros Hs Hin Hw Hok. rewrite !gnums_ok_cons in Hok. bsplit. norm_toks.
   apply Z.eqb_eq in Hs.
   assert (Hn0 : 0 <= nval (gb_neg b)) by (eapply gnum_ok_nonneg; eassumption).
   assert (Hb0 : 0 <= nval bnd) by (eapply gnum_ok_nonneg; eassumption).
-  rewrite d_gbody_eq by assumption. unfold m_sum.
+  rewrite d_gbody_eq by assumption. unfold m_sum_v.
   eapply yields_bind. { apply m_pos_fwd; [apply umax_le | assumption | rng]. }
   intros ln1. cbv beta iota.
   eapply yields_bind. { apply m_pos_fwd; [apply umax_le | assumption | rng]. }
@@ -131,11 +147,11 @@ Lemma m_sum_w_fwd b bnd wts k ln : gbody_shape b = true -> len_is (gb_len b) wts
   yields (m_sum true (amk (r_gnums (bnd :: gb_len b :: gb_neg b :: gb_atoms b ++ wts) ++ k) ln))
          (nval bnd, combine (d_gbody b) (gvals wts)) k.
 Proof.
-  unfold gbody_shape, len_is, gbody_in. intros Hs Hlw Hin Hw Hws Hok. rewrite !gnums_ok_cons, gnums_ok_app in Hok. bsplit. norm_toks.
+  unfold gbody_shape, len_is, gbody_in_v. intros Hs Hlw Hin Hw Hws Hok. rewrite !gnums_ok_cons, gnums_ok_app in Hok. bsplit. norm_toks.
   apply Z.eqb_eq in Hs. apply Z.eqb_eq in Hlw.
   assert (Hn0 : 0 <= nval (gb_neg b)) by (eapply gnum_ok_nonneg; eassumption).
   assert (Hb0 : 0 <= nval bnd) by (eapply gnum_ok_nonneg; eassumption).
-  rewrite d_gbody_eq by assumption. unfold m_sum.
+  rewrite d_gbody_eq by assumption. unfold m_sum_v.
   eapply yields_bind. { apply m_pos_fwd; [apply umax_le | assumption | rng]. }
   intros ln1. cbv beta iota.
   eapply yields_bind. { apply m_pos_fwd; [apply umax_le | assumption | rng]. }
@@ -173,9 +189,9 @@ Lemma read_rule_fwd (o : opts) prio r t l k ln : grule_shape r = true -> grule_i
 Proof.
   intros Hs Hin Et Hok.
   destruct r as [t0 h b|t0 n hs b|t0 h b bnd|t0 h bnd b wts|t0 bnd b wts|t0 z|t0 a v|t0 a];
-    cbn [rule_toks grule_shape grule_in d_grule] in *; injection Et as <- <-.
+    cbn [rule_toks grule_shape grule_in_v d_grule] in *; injection Et as <- <-.
   - (* basic *)
-    bsplit. type_eq t0. unfold read_rule. rt_reduce.
+    bsplit. type_eq t0. unfold read_rule_v. rt_reduce.
     rewrite gnums_ok_cons in Hok. bsplit. rewrite r_gnums_cons, <- app_assoc.
     eapply yields_bind. { apply m_atom_fwd; assumption. }
     intros ln1. cbv beta iota.
@@ -197,32 +213,32 @@ Proof.
     eapply yields_bind. { apply m_body_fwd; assumption. }
     intros ln3. cbv beta iota. apply yields_ret.
   - (* cardinality *)
-    bsplit. type_eq t0. unfold read_rule. rt_reduce.
+    bsplit. type_eq t0. unfold read_rule_v. rt_reduce.
     rewrite gnums_ok_cons in Hok. bsplit. rewrite r_gnums_cons, <- app_assoc.
     eapply yields_bind. { apply m_atom_fwd; assumption. }
     intros ln1. cbv beta iota.
     eapply yields_bind. { apply m_sum_c_fwd; assumption. }
     intros ln2. cbv beta iota. apply yields_ret.
   - (* weight *)
-    bsplit. type_eq t0. unfold read_rule. rt_reduce.
+    bsplit. type_eq t0. unfold read_rule_v. rt_reduce.
     rewrite gnums_ok_cons in Hok. bsplit. rewrite r_gnums_cons, <- app_assoc.
     eapply yields_bind. { apply m_atom_fwd; assumption. }
     intros ln1. cbv beta iota.
     eapply yields_bind. { apply m_sum_w_fwd; assumption. }
     intros ln2. cbv beta iota. apply yields_ret.
   - (* optimize *)
-    bsplit. type_eq t0. unfold read_rule. rt_reduce.
+    bsplit. type_eq t0. unfold read_rule_v. rt_reduce.
     eapply yields_bind. { apply m_sum_w_fwd; assumption. }
     intros ln2. cbv beta iota. apply yields_ret.
   - (* 90 *)
-    bsplit. type_eq t0. unfold read_rule. rt_reduce.
+    bsplit. type_eq t0. unfold read_rule_v. rt_reduce.
     match goal with H : claspExt o = true |- _ => rewrite H end.
     rewrite gnums_ok_cons in Hok. bsplit. norm_toks.
     eapply yields_bind. { apply m_pos_fwd; [apply umax_le | assumption | rng]. }
     intros ln1. cbv beta iota.
     match goal with H : (nval z =? 0) = true |- _ => rewrite H end. cbn [m_require bind]. apply yields_ret.
   - (* 91 *)
-    bsplit. type_eq t0. unfold read_rule. rt_reduce.
+    bsplit. type_eq t0. unfold read_rule_v. rt_reduce.
     match goal with H : claspExt o = true |- _ => rewrite H end.
     rewrite !gnums_ok_cons in Hok. bsplit. norm_toks.
     eapply yields_bind. { apply m_atom_fwd; assumption. }
@@ -235,7 +251,7 @@ Proof.
       destruct Hc as [-> | [-> | ->]]; reflexivity. }
     rewrite Ev. apply yields_ret.
   - (* 92 *)
-    bsplit. type_eq t0. unfold read_rule. rt_reduce.
+    bsplit. type_eq t0. unfold read_rule_v. rt_reduce.
     match goal with H : claspExt o = true |- _ => rewrite H end.
     rewrite gnums_ok_cons in Hok. bsplit. norm_toks.
     eapply yields_bind. { apply m_atom_fwd; assumption. }
@@ -265,7 +281,7 @@ Lemma read_rules_fwd_hd (o : opts) : forall (rules : list grule) (rend : gnum) (
 Proof.
   induction rules as [|r rules IH]; intros rend prio k ln fuel t0 l t0' Hfu E Hv Hok Hsh Hend Hin;
     (destruct fuel as [|fu]; [cbn in Hfu; lia|]).
-  - cbn [flat_map app] in E. injection E as <- <-. cbn [d_grules read_rules].
+  - cbn [flat_map app] in E. injection E as <- <-. cbn [d_grules read_rules_v].
     rewrite gnums_ok_cons in Hok. bsplit. norm_toks.
     destruct (m_pos_fwd sm_rt_max t0' k ln ltac:(unfold sm_rt_max, INT64_MAX; lia) ltac:(assumption) ltac:(unfold sm_rt_max; lia)) as [ln1 E1].
     rewrite E1, Hv, Hend. change (0 =? 0) with true. cbv iota. exists ln1. reflexivity.
@@ -274,7 +290,7 @@ Proof.
     destruct (toks_nonempty rules rend) as (t1 & l1 & E1). rewrite E1 in *.
     rewrite gnums_ok_cons, gnums_ok_app in Hok. bsplit.
     pose proof (rule_type_val r t lr ltac:(assumption) Er) as Hty.
-    cbn [d_grules read_rules]. rewrite r_gnums_cons. rewrite ?r_gnums_app, <- ?app_assoc in *.
+    cbn [d_grules read_rules_v]. rewrite r_gnums_cons. rewrite ?r_gnums_app, <- ?app_assoc in *.
     destruct (m_pos_fwd sm_rt_max t0' (r_gnums lr ++ r_gnums (t1 :: l1) ++ k) ln
                 ltac:(unfold sm_rt_max, INT64_MAX; lia) ltac:(assumption) ltac:(unfold sm_rt_max; lia)) as [ln1 E2].
     rewrite E2. destruct (Z.eqb_spec (nval t0') 0) as [E0|_]; [lia|]. rewrite Hv.
@@ -305,3 +321,4 @@ Proof.
   pose proof (fuel_tok _ k ln Hok) as Hf. rewrite app_length in Hf. cbn [length] in Hf.
   pose proof (len_rule_toks rules). lia.
 Qed.
+End MaxVar.
